@@ -37,6 +37,7 @@ num_impl!(u32, false);
 num_impl!(u64, false);
 num_impl!(i64, true);
 num_impl!(i8, true);
+num_impl!(u128, false);
 
 thread_local! {
     pub static CMP_LOG: RefCell<Vec<(char, u64)>> = RefCell::new(Vec::new());
